@@ -51,6 +51,9 @@ def run(ctx: Ctx, rep: Report) -> None:
     conj(ctx, rep)
     edgenf.rule_nf(ctx, rep)
     pred_specs(ctx, rep)
+    # single-qudit retargeting (ZXZXZ) spells the same rotation two ways
+    from ..rules.branchsib import rule_altspell
+    rule_altspell(ctx, rep, 'bqskit/passes/', 3)
 
 
 def wf_rule(ctx: Ctx, rep: Report) -> None:
